@@ -90,8 +90,8 @@ structure Inv (s : State) (before : List Line) (acc : List AtomObs) : Prop where
   part : s.parts[s.part]? = some (specPart before)
   resi : s.resis[s.resi]? = some (specResi before)
   afix : afixMn s.afixes s.afix = some (specAfix before)
-  frag : s.frag = inFrag before
-  hklf : s.hklf = before.any isHklf
+  frag : optTruthy cmdTruthy s.frag = inFrag before
+  hklf : optTruthy cmdTruthy s.hklf = before.any isHklf
   ended : s.ended = before.any isFin
   obs : observe s = acc.map some
 
@@ -108,12 +108,12 @@ theorem observe_mkAtom (s : State) (before : List Line) (acc : List AtomObs) (a 
     observeAtom s (mkAtom s a) = some (specAtom before a) := by
   simp only [lineOK, Bool.and_eq_true, decide_eq_true_eq] at hok
   obtain ⟨hu, hq⟩ := hok
-  have hq' : ((peakShaped (pad6 a.u) && s.hklf) || s.ended) = before.any isBarrier := by
+  have hq' : ((peakShaped (pad6 a.u) && optTruthy cmdTruthy s.hklf) || s.ended) = before.any isBarrier := by
     rw [any_barrier, h.hklf, h.ended]
     revert hq
     cases before.any isHklf <;> cases before.any isFin <;> cases peakShaped (pad6 a.u) <;> simp
   rw [pad6_eq_specU a.u hu] at hq'
-  simp only [observeAtom, mkAtom, h.part, h.resi, h.afix, specAtom, pad6_eq_specU a.u hu, hq']
+  simp only [observeAtom, mkAtom, mkAtomT, h.part, h.resi, h.afix, specAtom, pad6_eq_specU a.u hu, hq']
 
 theorem step_inv (s : State) (before : List Line) (acc : List AtomObs) (l : Line)
     (h : Inv s before acc) (hok : lineOK before l = true) :
@@ -121,34 +121,34 @@ theorem step_inv (s : State) (before : List Line) (acc : List AtomObs) (l : Line
   have hpl : s.part < s.parts.length := (List.getElem?_eq_some_iff.mp h.part).1
   cases l with
   | resi c n =>
-    have hx : Extends s (step s (.resi c n)) := ⟨⟨[], by simp [step]⟩, ⟨[], by simp [step]⟩, ⟨[_], rfl⟩⟩
+    have hx : Extends s (step s (.resi c n)) := ⟨⟨[], by simp [step, stepT]⟩, ⟨[], by simp [step, stepT]⟩, ⟨[_], rfl⟩⟩
     exact {
-      part := by simpa [step, specPart, inForce, isBarrier, isHklf, isFin, selPart] using h.part
-      resi := by simp [step, specResi, inForce, isBarrier, isHklf, isFin, selResi]
-      afix := by simpa [step, specAfix, inForce, isBarrier, isHklf, isFin, selAfix] using h.afix
-      frag := by simpa [step, inFrag] using h.frag
-      hklf := by simpa [step, isHklf] using h.hklf
-      ended := by simpa [step, isFin] using h.ended
+      part := by simpa [step, stepT, specPart, inForce, isBarrier, isHklf, isFin, selPart] using h.part
+      resi := by simp [step, stepT, specResi, inForce, isBarrier, isHklf, isFin, selResi]
+      afix := by simpa [step, stepT, specAfix, inForce, isBarrier, isHklf, isFin, selAfix] using h.afix
+      frag := by simpa [step, stepT, inFrag] using h.frag
+      hklf := by simpa [step, stepT, isHklf] using h.hklf
+      ended := by simpa [step, stepT, isFin] using h.ended
       obs := by simpa [contrib] using observe_extends s _ acc hx rfl h.obs }
   | part n f =>
-    have hx : Extends s (step s (.part n f)) := ⟨⟨[_], rfl⟩, ⟨[], by simp [step]⟩, ⟨[], by simp [step]⟩⟩
+    have hx : Extends s (step s (.part n f)) := ⟨⟨[_], rfl⟩, ⟨[], by simp [step, stepT]⟩, ⟨[], by simp [step, stepT]⟩⟩
     exact {
-      part := by simp [step, specPart, inForce, isBarrier, isHklf, isFin, selPart]
-      resi := by simpa [step, specResi, inForce, isBarrier, isHklf, isFin, selResi] using h.resi
-      afix := by simpa [step, specAfix, inForce, isBarrier, isHklf, isFin, selAfix] using h.afix
-      frag := by simpa [step, inFrag] using h.frag
-      hklf := by simpa [step, isHklf] using h.hklf
-      ended := by simpa [step, isFin] using h.ended
+      part := by simp [step, stepT, specPart, inForce, isBarrier, isHklf, isFin, selPart]
+      resi := by simpa [step, stepT, specResi, inForce, isBarrier, isHklf, isFin, selResi] using h.resi
+      afix := by simpa [step, stepT, specAfix, inForce, isBarrier, isHklf, isFin, selAfix] using h.afix
+      frag := by simpa [step, stepT, inFrag] using h.frag
+      hklf := by simpa [step, stepT, isHklf] using h.hklf
+      ended := by simpa [step, stepT, isFin] using h.ended
       obs := by simpa [contrib] using observe_extends s _ acc hx rfl h.obs }
   | afix mn =>
-    have hx : Extends s (step s (.afix mn)) := ⟨⟨[], by simp [step]⟩, ⟨[_], rfl⟩, ⟨[], by simp [step]⟩⟩
+    have hx : Extends s (step s (.afix mn)) := ⟨⟨[], by simp [step, stepT]⟩, ⟨[_], rfl⟩, ⟨[], by simp [step, stepT]⟩⟩
     exact {
-      part := by simpa [step, specPart, inForce, isBarrier, isHklf, isFin, selPart] using h.part
-      resi := by simpa [step, specResi, inForce, isBarrier, isHklf, isFin, selResi] using h.resi
-      afix := by simp [step, afixMn, specAfix, inForce, isBarrier, isHklf, isFin, selAfix]
-      frag := by simpa [step, inFrag] using h.frag
-      hklf := by simpa [step, isHklf] using h.hklf
-      ended := by simpa [step, isFin] using h.ended
+      part := by simpa [step, stepT, specPart, inForce, isBarrier, isHklf, isFin, selPart] using h.part
+      resi := by simpa [step, stepT, specResi, inForce, isBarrier, isHklf, isFin, selResi] using h.resi
+      afix := by simp [step, stepT, afixMn, specAfix, inForce, isBarrier, isHklf, isFin, selAfix]
+      frag := by simpa [step, stepT, inFrag] using h.frag
+      hklf := by simpa [step, stepT, isHklf] using h.hklf
+      ended := by simpa [step, stepT, isFin] using h.ended
       obs := by simpa [contrib] using observe_extends s _ acc hx rfl h.obs }
   | atom a =>
     have hctx : Inv s (.atom a :: before) acc := {
@@ -159,13 +159,13 @@ theorem step_inv (s : State) (before : List Line) (acc : List AtomObs) (l : Line
       hklf := by simpa [isHklf] using h.hklf
       ended := by simpa [isFin] using h.ended
       obs := h.obs }
-    by_cases hf : s.frag = true
+    by_cases hf : optTruthy cmdTruthy s.frag = true
     · have hfi : inFrag before = true := by rw [← h.frag]; exact hf
-      simpa [step, hf, contrib, hfi] using hctx
-    · have hf' : s.frag = false := by simpa using hf
+      simpa [step, stepT, hf, contrib, hfi] using hctx
+    · have hf' : optTruthy cmdTruthy s.frag = false := by simpa using hf
       have hfi : inFrag before = false := by rw [← h.frag]; exact hf'
       have hnew := observe_mkAtom s before acc a h hok
-      have hstep : step s (.atom a) = { s with atoms := s.atoms ++ [mkAtom s a] } := by simp [step, hf']
+      have hstep : step s (.atom a) = { s with atoms := s.atoms ++ [mkAtom s a] } := by simp [step, stepT, hf', mkAtom]
       rw [hstep]
       exact {
         part := hctx.part
@@ -181,55 +181,55 @@ theorem step_inv (s : State) (before : List Line) (acc : List AtomObs) (l : Line
           rw [← ho]
           congr 1
           simpa [observeAtom] using hnew }
-  | frag =>
-    have hx : Extends s (step s .frag) := ⟨⟨[], by simp [step]⟩, ⟨[], by simp [step]⟩, ⟨[], by simp [step]⟩⟩
+  | frag np =>
+    have hx : Extends s (step s (.frag np)) := ⟨⟨[], by simp [step, stepT]⟩, ⟨[], by simp [step, stepT]⟩, ⟨[], by simp [step, stepT]⟩⟩
     exact {
-      part := by simpa [step, specPart, inForce, isBarrier, isHklf, isFin, selPart] using h.part
-      resi := by simpa [step, specResi, inForce, isBarrier, isHklf, isFin, selResi] using h.resi
-      afix := by simpa [step, specAfix, inForce, isBarrier, isHklf, isFin, selAfix] using h.afix
-      frag := by simp [step, inFrag]
-      hklf := by simpa [step, isHklf] using h.hklf
-      ended := by simpa [step, isFin] using h.ended
+      part := by simpa [step, stepT, specPart, inForce, isBarrier, isHklf, isFin, selPart] using h.part
+      resi := by simpa [step, stepT, specResi, inForce, isBarrier, isHklf, isFin, selResi] using h.resi
+      afix := by simpa [step, stepT, specAfix, inForce, isBarrier, isHklf, isFin, selAfix] using h.afix
+      frag := by simp [step, stepT, inFrag, optTruthy, cmdTruthy]
+      hklf := by simpa [step, stepT, isHklf] using h.hklf
+      ended := by simpa [step, stepT, isFin] using h.ended
       obs := by simpa [contrib] using observe_extends s _ acc hx rfl h.obs }
   | fend =>
-    have hx : Extends s (step s .fend) := ⟨⟨[], by simp [step]⟩, ⟨[], by simp [step]⟩, ⟨[], by simp [step]⟩⟩
+    have hx : Extends s (step s .fend) := ⟨⟨[], by simp [step, stepT]⟩, ⟨[], by simp [step, stepT]⟩, ⟨[], by simp [step, stepT]⟩⟩
     exact {
-      part := by simpa [step, specPart, inForce, isBarrier, isHklf, isFin, selPart] using h.part
-      resi := by simpa [step, specResi, inForce, isBarrier, isHklf, isFin, selResi] using h.resi
-      afix := by simpa [step, specAfix, inForce, isBarrier, isHklf, isFin, selAfix] using h.afix
-      frag := by simp [step, inFrag]
-      hklf := by simpa [step, isHklf] using h.hklf
-      ended := by simpa [step, isFin] using h.ended
+      part := by simpa [step, stepT, specPart, inForce, isBarrier, isHklf, isFin, selPart] using h.part
+      resi := by simpa [step, stepT, specResi, inForce, isBarrier, isHklf, isFin, selResi] using h.resi
+      afix := by simpa [step, stepT, specAfix, inForce, isBarrier, isHklf, isFin, selAfix] using h.afix
+      frag := by simp [step, stepT, inFrag, optTruthy]
+      hklf := by simpa [step, stepT, isHklf] using h.hklf
+      ended := by simpa [step, stepT, isFin] using h.ended
       obs := by simpa [contrib] using observe_extends s _ acc hx rfl h.obs }
-  | hklf =>
-    have hx : Extends s (step s .hklf) := ⟨⟨[_], rfl⟩, ⟨[_], rfl⟩, ⟨[_], rfl⟩⟩
+  | hklf np =>
+    have hx : Extends s (step s (.hklf np)) := ⟨⟨[_], rfl⟩, ⟨[_], rfl⟩, ⟨[_], rfl⟩⟩
     exact {
-      part := by simp [step, resetCtx, specPart, inForce, isBarrier, isHklf]
-      resi := by simp [step, resetCtx, specResi, inForce, isBarrier, isHklf]
-      afix := by simp [step, resetCtx, afixMn, specAfix, inForce, isBarrier, isHklf]
-      frag := by simpa [step, resetCtx, inFrag] using h.frag
-      hklf := by simp [step, resetCtx, isHklf]
-      ended := by simpa [step, resetCtx, isFin] using h.ended
+      part := by simp [step, stepT, resetCtx, specPart, inForce, isBarrier, isHklf]
+      resi := by simp [step, stepT, resetCtx, specResi, inForce, isBarrier, isHklf]
+      afix := by simp [step, stepT, resetCtx, afixMn, specAfix, inForce, isBarrier, isHklf]
+      frag := by simpa [step, stepT, resetCtx, inFrag] using h.frag
+      hklf := by simp [step, stepT, resetCtx, isHklf, optTruthy, cmdTruthy]
+      ended := by simpa [step, stepT, resetCtx, isFin] using h.ended
       obs := by simpa [contrib] using observe_extends s _ acc hx rfl h.obs }
   | fin =>
     have hx : Extends s (step s .fin) := ⟨⟨[_], rfl⟩, ⟨[_], rfl⟩, ⟨[_], rfl⟩⟩
     exact {
-      part := by simp [step, resetCtx, specPart, inForce, isBarrier, isFin]
-      resi := by simp [step, resetCtx, specResi, inForce, isBarrier, isFin]
-      afix := by simp [step, resetCtx, afixMn, specAfix, inForce, isBarrier, isFin]
-      frag := by simpa [step, resetCtx, inFrag] using h.frag
-      hklf := by simpa [step, resetCtx, isHklf] using h.hklf
-      ended := by simp [step, resetCtx, isFin]
+      part := by simp [step, stepT, resetCtx, specPart, inForce, isBarrier, isFin]
+      resi := by simp [step, stepT, resetCtx, specResi, inForce, isBarrier, isFin]
+      afix := by simp [step, stepT, resetCtx, afixMn, specAfix, inForce, isBarrier, isFin]
+      frag := by simpa [step, stepT, resetCtx, inFrag] using h.frag
+      hklf := by simpa [step, stepT, resetCtx, isHklf] using h.hklf
+      ended := by simp [step, stepT, resetCtx, isFin]
       obs := by simpa [contrib] using observe_extends s _ acc hx rfl h.obs }
   | other =>
     exact {
-      part := by simpa [step, specPart, inForce, isBarrier, isHklf, isFin, selPart] using h.part
-      resi := by simpa [step, specResi, inForce, isBarrier, isHklf, isFin, selResi] using h.resi
-      afix := by simpa [step, specAfix, inForce, isBarrier, isHklf, isFin, selAfix] using h.afix
-      frag := by simpa [step, inFrag] using h.frag
-      hklf := by simpa [step, isHklf] using h.hklf
-      ended := by simpa [step, isFin] using h.ended
-      obs := by simpa [contrib, step] using h.obs }
+      part := by simpa [step, stepT, specPart, inForce, isBarrier, isHklf, isFin, selPart] using h.part
+      resi := by simpa [step, stepT, specResi, inForce, isBarrier, isHklf, isFin, selResi] using h.resi
+      afix := by simpa [step, stepT, specAfix, inForce, isBarrier, isHklf, isFin, selAfix] using h.afix
+      frag := by simpa [step, stepT, inFrag] using h.frag
+      hklf := by simpa [step, stepT, isHklf] using h.hklf
+      ended := by simpa [step, stepT, isFin] using h.ended
+      obs := by simpa [contrib, step, stepT] using h.obs }
 
 /-- **context_invariant** — by induction over the lines: whatever state satisfies the invariant for the lines
     read so far satisfies it after any valid continuation, with the specification's atoms appended. -/
@@ -272,8 +272,8 @@ theorem context_after_prefix (pre : List Line) (hv : valid pre = true) :
 /-- PART 2 with occupancy 31 left open at HKLF, a residue, a riding hydrogen, a FRAG block followed by an atom,
     a peak between HKLF and END and one after END -/
 def demoFile : List Line :=
-  [.part 2 31, .resi "TOL" 3, .atom ⟨0, 1, 11, [4/100]⟩, .afix 43, .atom ⟨1, 2, 11, [-12/10]⟩, .frag, .atom ⟨2, 1, 11, []⟩,
-   .fend, .atom ⟨3, 3, 21/2, [2/100, 3/100, 4/100, -2/1000, 3/1000, -4/1000]⟩, .hklf, .atom ⟨4, 1, 11, [5/100, 3/2]⟩, .fin,
+  [.part 2 31, .resi "TOL" 3, .atom ⟨0, 1, 11, [4/100]⟩, .afix 43, .atom ⟨1, 2, 11, [-12/10]⟩, .frag 7, .atom ⟨2, 1, 11, []⟩,
+   .fend, .atom ⟨3, 3, 21/2, [2/100, 3/100, 4/100, -2/1000, 3/1000, -4/1000]⟩, .hklf 1, .atom ⟨4, 1, 11, [5/100, 3/2]⟩, .fin,
    .other, .atom ⟨5, 1, 11, [5/100, 6/5]⟩]
 
 example : valid demoFile = true := by decide +kernel
@@ -292,12 +292,70 @@ example : observe (readHistory ([[.resi "BNZ" 7, .part 1 41, .atom ⟨9, 3, 11, 
     (specAtoms demoFile).map some :=
   last_read_only _ demoFile (by decide +kernel)
 
+/-- every instruction in its shortest form: bare `FRAG` (all seven parameters at their defaults), bare `HKLF`,
+    `RESI` without class and number (back to residue 0), an atom line without occupation code and U -/
+def bareFile : List Line :=
+  [.resi "TOL" 3, .part 1 21, .atom ⟨0, 1, 11, []⟩, .frag 0, .atom ⟨1, 1, 11, []⟩, .atom ⟨2, 3, 11, []⟩, .fend,
+   .atom ⟨3, 1, 21/2, []⟩, .resi "" 0, .atom ⟨4, 2, 11, [-3/2]⟩, .hklf 0, .atom ⟨5, 1, 11, [5/100, 3/2]⟩, .fin,
+   .atom ⟨6, 1, 11, [5/100, 6/5]⟩]
+
+example : valid bareFile = true := by decide +kernel
+
+example : specAtoms bareFile =
+    [⟨0, 1, 21, [0, 0, 0, 0, 0, 0], 1, 0, 3, "TOL", false⟩,
+     ⟨3, 1, 21, [0, 0, 0, 0, 0, 0], 1, 0, 3, "TOL", false⟩,
+     ⟨4, 2, 21, [-3/2, 0, 0, 0, 0, 0], 1, 0, 0, "", false⟩,
+     ⟨5, 1, 11, [5/100, 3/2, 0, 0, 0, 0], 0, 0, 0, "", true⟩,
+     ⟨6, 1, 11, [5/100, 6/5, 0, 0, 0, 0], 0, 0, 0, "", true⟩] := by decide +kernel
+
+example : observe (run bareFile) = (specAtoms bareFile).map some := atoms_match_spec bareFile (by decide +kernel)
+
+/-! ### what the property needs of the truth value of instruction objects
+
+`atoms_match_spec` is a statement about `run = runT cmdTruthy`: the parser asks for the *truth value* of
+`self.frag` / `self.hklf`, and in the code every FRAG / HKLF object is true. The two theorems below show that this is
+not a detail: under ANY rule `t` that makes the object of some form `np` false, the property fails on a two-line
+file with that form. (`lenTruthy` — a `Command.__len__` counting the parameters — is false for `np = 0`.) -/
+
+/-- a FRAG object that is false lets its coordinate lines into the atom list -/
+theorem truthiness_needed_frag (t : Nat → Bool) (np : Nat) (a : AtomLine) (h : t np = false) :
+    observe (runT t [.frag np, .atom a]) ≠ (specAtoms [.frag np, .atom a]).map some := by
+  simp [runT, stepT, init, optTruthy, h, observe, specAtoms, specFrom, contrib, inFrag]
+
+/-- an HKLF object that is false leaves the peaks listed between HKLF and END unmarked -/
+theorem truthiness_needed_hklf (t : Nat → Bool) (np : Nat) (a : AtomLine) (h : t np = false) :
+    observe (runT t [.hklf np, .atom a]) ≠ (specAtoms [.hklf np, .atom a]).map some := by
+  intro hc
+  have h1 : (observe (runT t [.hklf np, .atom a])).map (Option.map (·.qpeak)) = [some false] := by
+    simp [runT, stepT, init, resetCtx, optTruthy, h, observe, observeAtom, mkAtomT, afixMn]
+  have h2 : ((specAtoms [.hklf np, .atom a]).map some).map (Option.map (·.qpeak)) = [some true] := by
+    simp [specAtoms, specFrom, contrib, inFrag, specAtom, isBarrier, isHklf]
+  rw [hc, h2] at h1
+  simp at h1
+
+/-- conversely, any rule under which every form is true parses as the code does -/
+theorem truthy_rule_is_code (t : Nat → Bool) (ht : ∀ np, t np = true) (file : List Line) (hv : valid file = true) :
+    observe (runT t file) = (specAtoms file).map some := by
+  have : t = cmdTruthy := funext fun np => by simp [ht, cmdTruthy]
+  subst this
+  exact atoms_match_spec file hv
+
+/-- the bare forms under `Command.__len__`-truthiness: both witnesses, concretely -/
+theorem len_truthiness_fails_on :
+    observe (runT lenTruthy [.frag 0, .atom ⟨0, 1, 11, []⟩]) ≠ (specAtoms [.frag 0, .atom ⟨0, 1, 11, []⟩]).map some ∧
+    observe (runT lenTruthy [.hklf 0, .atom ⟨0, 1, 11, [5/100, 3/2]⟩]) ≠
+      (specAtoms [.hklf 0, .atom ⟨0, 1, 11, [5/100, 3/2]⟩]).map some :=
+  ⟨truthiness_needed_frag lenTruthy 0 _ (by decide), truthiness_needed_hklf lenTruthy 0 _ (by decide)⟩
+
+/-- with at least one parameter written the same rule is harmless (why `FRAG 17 …` / `HKLF 4` never showed it) -/
+example : observe (runT lenTruthy demoFile) = (specAtoms demoFile).map some := by decide +kernel
+
 /-! ### the code before the fixes: the same statement is false -/
 
 /-- the smallest witness: `PART 2 / atom / HKLF` — the code of commit e475fe2 sets `part.n = 0` on the object the
     atom refers to, so the atom reads PART 0 after parsing. (Replayed on the implementation by the harness: the
     bounded-exhaustive stream contains exactly this file.) -/
-def witnessFile : List Line := [.part 2 11, .atom ⟨0, 1, 11, [4/100]⟩, .hklf]
+def witnessFile : List Line := [.part 2 11, .atom ⟨0, 1, 11, [4/100]⟩, .hklf 1]
 
 theorem bug_witness : observe (runBug witnessFile) ≠ (specAtoms witnessFile).map some := by decide +kernel
 
@@ -307,13 +365,13 @@ example : observe (run witnessFile) = (specAtoms witnessFile).map some := by dec
 /-- second witness: an AFIX left open swallows HKLF (the `elif` chain is never entered), a peak listed between
     HKLF and END is then not a Q-peak, and the PART occupancy lands on it -/
 theorem bug_witness_afix_hklf :
-    observe (runBug [.part 1 21, .afix 43, .atom ⟨0, 2, 11, [-12/10]⟩, .hklf, .atom ⟨1, 1, 11, [5/100, 3/2]⟩]) ≠
-      (specAtoms [.part 1 21, .afix 43, .atom ⟨0, 2, 11, [-12/10]⟩, .hklf, .atom ⟨1, 1, 11, [5/100, 3/2]⟩]).map some := by
+    observe (runBug [.part 1 21, .afix 43, .atom ⟨0, 2, 11, [-12/10]⟩, .hklf 1, .atom ⟨1, 1, 11, [5/100, 3/2]⟩]) ≠
+      (specAtoms [.part 1 21, .afix 43, .atom ⟨0, 2, 11, [-12/10]⟩, .hklf 1, .atom ⟨1, 1, 11, [5/100, 3/2]⟩]).map some := by
   decide +kernel
 
 /-- the hypothesis `valid` is needed (Q-peak rule): an ordinary atom line between HKLF and END is not flagged
     by the code (no peak height), while it is "listed after HKLF" -/
-example : observe (run [.hklf, .atom ⟨0, 1, 11, [4/100]⟩]) ≠ (specAtoms [.hklf, .atom ⟨0, 1, 11, [4/100]⟩]).map some := by
+example : observe (run [.hklf 1, .atom ⟨0, 1, 11, [4/100]⟩]) ≠ (specAtoms [.hklf 1, .atom ⟨0, 1, 11, [4/100]⟩]).map some := by
   decide +kernel
 
 /-! ### element lookup -/
